@@ -111,6 +111,12 @@ def run : State → List Env → State × List Obs
     let (s2, os) := run s1 es
     (s2, o :: os)
 
+/-- A dependency pattern for the futures: task `k` returns `Ready` when polled iff each of the tasks
+`k+1 … k+d` (that exist) has been polled at least once — e.g. `k` waits for data that is only sent
+once enough later records have started. -/
+def depReady (n d : Nat) (started : List Nat) (k : Nat) : Bool :=
+  (List.range d).all fun j => decide (k + 1 + j ≥ n) || started.contains (k + 1 + j)
+
 /-! ### `seq_try_join_all`: `try_collect` over the stream (source = `iter(..)`, always ready) -/
 
 inductive TryOut where
